@@ -1,6 +1,7 @@
 package main
 
 import (
+	"os/exec"
 	"context"
 	"fmt"
 	"os"
@@ -117,6 +118,27 @@ func transferCmd(out *cq.Out, seed uint64, tier string) {
 			continue
 		}
 		c.checkReplicas(out, rng, "C09", desc)
+		// what a kill -9 of the restored follower would leave: a copy of its idle store directory must reopen to the
+		// transferred state (the transfer is acknowledged to raft as installed, so nothing will send it again)
+		if rn := c.nodes[f]; rn != nil {
+			img, _ := os.MkdirTemp(out.Dir, "trimg")
+			if exec.Command("cp", "-a", fmt.Sprintf("%s/node%d/db", dir, f), img+"/db").Run() == nil {
+				if rs, err := rocks.NewRocksDBStore(img+"/db", 0); err == nil {
+					ch := make(chan *protocol.Snapshot, 16)
+					drain(ch)
+					if bn, err := consensus.VNewFSM(rs, ch); err == nil {
+						if got, want := bn.VBalloonVersion(), rn.VBalloonVersion(); got != want || tablesFP(rs) != tablesFP(rn.VStore()) {
+							out.Violate("C09:transferred-state-lost-by-crash", fmt.Sprintf("the follower caught up by state transfer (version %d, installed for raft); the image a process kill would leave of its store reopens at version %d with different tables: the transferred range is not durable", want, got), desc)
+						}
+						bn.VCloseFSM()
+					} else {
+						rs.Close()
+					}
+				}
+			}
+			os.RemoveAll(img)
+			out.Count("transfer_crash_images", 1)
+		}
 		// later insertions applied locally by the restored follower
 		add(1 + rng.Intn(4))
 		if c.quiesce() {
@@ -218,6 +240,9 @@ func gapCmd(out *cq.Out, seed uint64, tier string) {
 						sig = "C09:gap-served:new-node-one-event-missing"
 					}
 					out.Violate(sig, fmt.Sprintf("a transfer leaving a gap was served: the requester holds %d entries (%d events, reports last version %d), the stream starts with entry %d (%d events before it)", h, verAfter[h], last, p, verAfter[p]), desc)
+				}
+				if p > h && p < m && err == nil && len(buf) == 0 {
+					out.Violate("C09:gap-answered-as-complete-empty-transfer", fmt.Sprintf("a transfer that cannot be completed was answered as a successful stream of nothing instead of being refused: the requester holds %d entries (%d events), the leader's usable WAL starts after entry %d of %d", h, verAfter[h], p, m), desc)
 				}
 				if p == h && err != nil {
 					out.Violate("C09:contiguous-transfer-refused", fmt.Sprintf("a transfer that connects exactly to the requester's state was refused: %v", err), desc)
